@@ -62,7 +62,10 @@ def run(tier):
         width = rng.choice([1, 2, 4])
         src = 'sstream' if rng.random() < 0.4 else 'slow'
         cid = 'r%d' % i
-        line = 'op=encread id=%s doc=%s chunk=%d width=%d policy=%s src=%s step=%d' % (cid, raw.hex(), chunk, width, rng.choice(['skip', 'throw']), src, rng.choice([1, 2, 3, 5, 31, 32, 33, 64, 300]))
+        pre = rng.choice([0, 0, 0, 1, 3, 4, 13, 255, 256, 257])
+        if pre:
+            raw = bytes(rng.randrange(256) for _ in range(pre)) + raw      # a preamble that the caller has consumed already
+        line = 'op=encread id=%s doc=%s chunk=%d width=%d policy=%s src=%s step=%d pre=%d' % (cid, raw.hex(), chunk, width, rng.choice(['skip', 'throw']), src, rng.choice([1, 2, 3, 5, 31, 32, 33, 64, 300]), pre)
         lines.append(line)
         meta[cid] = ('read', text, enc, bom, width, chunk, line, len(raw))
     # cut streams: all prefix lengths of a few texts
@@ -90,7 +93,7 @@ def run(tier):
             continue
         raw = (BOMS[enc] if bom else b'') + text.encode(ENC_PY[enc])
         cid = 'd%d' % i
-        lines.append('op=detect id=%s doc=%s' % (cid, raw.hex()))
+        lines.append('op=detect id=%s doc=%s pre=%d' % (cid, raw.hex(), rng.choice([0, 0, 1, 3, 4, 13, 127, 128, 129, 300])))
         meta[cid] = ('detect', text, enc, bom, 0, 0, lines[-1], len(raw))
     # writer
     for i in range(n // 3):
